@@ -673,6 +673,62 @@ def run(ctx):
         # tie broken and the search on the platform's default stacks found no failing input
         ctx.violation("translator extract/c05_cli_stacks.py can no longer read the entry point's stack configuration: " + broken_cfg.strip()[-200:],
                       {"broken": "extract/c05_cli_stacks.py (crates/samlang-cli/src/main.rs)", "log": broken_cfg[-1500:]}, no_input=True)
+    # 4b. deterministic syntax-and-diagnostics family (seed-independent, every run; round 5, coverage-guided):
+    #     the production catalogue and the error family of C14, a family of programs that reach every checker
+    #     diagnostic path (corpus/C05/checker_errors.sam), comment-in-every-gap and re-laid-out variants of the
+    #     catalogue (printer comment paths), a module with a very long name (wide location line in the report),
+    #     and the second parser entry point parse_source_expression_from_text (`expr` protocol).
+    if not ctx.violations:
+        from . import c14 as _c14
+        det = common.Rng(20260926)
+        fam = []
+        texts = {}
+        for rel in ("corpus/C14/catalogue.sam", "corpus/C14/errors.sam", "corpus/C05/checker_errors.sam"):
+            path = os.path.join(common.VERIF, rel)
+            if os.path.exists(path):
+                texts[rel] = open(path, encoding="utf-8").read()
+                fam.append([("Main", texts[rel])])
+        cat = texts.get("corpus/C14/catalogue.sam")
+        if cat:
+            fam += [[("Main", _c14.gap_comments(det.fork(), cat))] for _ in range(6)]
+            fam += [[("Main", _c14.relayout(det.fork(), cat))] for _ in range(4)]
+            fam.append([("a.very.long.module.name.that.makes.the.location.line.of.an.error.wider.than.the.rule.Main", cat + "\nclass Dup {} class Dup {}")])
+        fam += [[("Main", _c14.gen_module(det.fork()))] for _ in range(40)]
+        check_full_batch(ctx, fam, "deterministic family: syntax and diagnostics", stats, timeout_ms=ctx.scale(20000, 60000))
+        ddone += len(fam)
+        exprs = ["1", "(a, b: int) -> a + b", "(a, b) -> a", "() -> 1", "(a) -> a", "if let Some(v) = o { v } else { 0 }",
+                 "match (this) { None(_) -> 0, Some(d) -> d }", "{ let a = 1; a }", "a.b<int>(1)(2).c", "-(-x) + !y", "(", ")", "",
+                 "\"s\" :: \"t\"", "(a, )", "(" + ", ".join(["a"] * 17) + ")", "/* c */ 1 // d"]
+        exprs += [_c14.gen_expr(det.fork(), 3)[0] for _ in range(ctx.scale(150, 3000))]
+        exprs += [mutate(det.fork(), _c14.gen_expr(det.fork(), 3)[0], vocab) for _ in range(ctx.scale(100, 3000))]
+        rc, eans, _ = common.run_exec(common.harness_bin(PROP), [], ["expr " + hexs(e.encode()) for e in exprs])
+        for e, a in zip(exprs, eans + ["crash no-answer"] * (len(exprs) - len(eans))):
+            stats["full"]["expr-" + a.split(" ")[0]] = stats["full"].get("expr-" + a.split(" ")[0], 0) + 1
+            if not a.startswith("ok ") and stats["reported"] < 3:
+                stats["reported"] += 1
+                ctx.violation("parse_source_expression_from_text breaks C05: " + describe_full(a),
+                              {"protocol": "expr", "text": e, "impl": a, "impl_decoded": describe_full(a)})
+        ddone += len(exprs)
+
+    # 5. deterministic family of "small input, huge work" shapes + one probe per open finding of that class
+    def iface_chain(k):
+        return ("interface I1 {}\n" + "".join(f"interface I{i} : I{i-1}, I{i-1} {{}}\n" for i in range(2, k + 1))
+                + "class Main { function main(): unit = {} }")
+    if not ctx.violations:
+        fam = [[("Main", iface_chain(k))] for k in (2, 8, 16, 26, 40)]
+        fam += [[("Main", "interface A {} interface B : A {} interface C : A {} interface D : B, C {} class Main : D { function main(): unit = {} }")],
+                # recursion at the SAME type, and generic recursion that does not grow, must compile
+                [("Main", "class Main { function <T> f(x: T, n: int): int = if n == 0 { 0 } else { Main.f(x, n - 1) } function main(): unit = Process.println(Str.fromInt(Main.f(1, 3))) }")],
+                [("Main", "import { Pair } from std.tuples\nclass Main { function <T> g(x: T): Pair<T, T> = Pair.init(x, x) function main(): unit = { let _ = Main.g(Main.g(Main.g(1))); } }")]]
+        check_full_batch(ctx, fam, "deterministic family: hierarchy / instantiation shapes", stats, timeout_ms=ctx.scale(20000, 60000))
+        ddone += len(fam)
+    f7 = next((f for f in ctx.open_findings if f["id"] == "C05-F7"), None)
+    if f7 and not ctx.violations:
+        poly = ("import { Pair } from std.tuples\nclass Main { function <T> f(x: T, n: int): int = if n == 0 { 0 } else "
+                "{ Main.f(Pair.init(x, x), n - 1) } function main(): unit = Process.println(Str.fromInt(Main.f(1, 3))) }")
+        a = run_full([[("Main", poly)]], 20000, workers=1)[0]
+        if (a.startswith("crash") and "overflowed its stack" in a) or a.startswith("timeout@compile"):
+            ctx.known(f7)
     fdone += ddone
 
     ctx.cov.update({
@@ -718,6 +774,10 @@ def replay(ctx, path):
         for m in orc:
             print("ORACLE", m)
         return 1 if orc or canon_impl(impl[0]) != model[0] else 0
+    if rp.get("protocol") == "expr":
+        rc, a, _ = common.run_exec(common.harness_bin(PROP), [], ["expr " + hexs(rp["text"].encode())])
+        print("text", json.dumps(rp["text"])); print("impl", describe_full(a[0] if a else "crash"))
+        return 0 if a and a[0].startswith("ok ") else 1
     if rp.get("protocol") == "full":
         mods = [tuple(m) for m in rp["modules"]]
         r = run_full([mods], env_extra=rp.get("env") or None)[0]
